@@ -167,6 +167,9 @@ func renderMsg(m edge.Message) (string, bool) {
 		pj := fmt.Sprintf("n:%d", len(ps)) // projection of a batch: size and the times of its points
 		for _, bp := range x.Points() {
 			pj += fmt.Sprintf("/%d", bp.Time().UnixNano())
+			if o, ok := bp.Fields()["o"]; ok {
+				pj += "=" + kit.FieldVal(o)
+			}
 		}
 		return fmt.Sprintf("B|%s|%d|%s|%s|%s", gkey(d.ByName, x.Name(), d.TagNames, x.Tags()), x.Time().UnixNano(),
 			pj, kit.Esc(x.Name()), l), true
@@ -412,7 +415,7 @@ var nodeDefs = map[string]nodeDef{
 	"winwhere":      {"|window()\n    .periodCount(%d)\n    .everyCount(%d)\n  |where(lambda: count() %% 2 == 1)", true, 2},
 	"winstatecount": {"|window()\n    .periodCount(%d)\n    .everyCount(%d)\n  |stateCount(lambda: \"v\" > 3)\n    .as('o')", true, 2},
 	"winsample":     {"|window()\n    .periodCount(%d)\n    .everyCount(%d)\n  |sample(2)", true, 2},
-	"winderiv":      {"|window()\n    .periodCount(%d)\n    .everyCount(%d)\n  |derivative('v')\n    .unit(1s)", true, 2},
+	"winderiv":      {"|window()\n    .periodCount(%d)\n    .everyCount(%d)\n  |derivative('v')\n    .unit(1s)\n    .as('o')", true, 2},
 	"winchange":     {"|window()\n    .periodCount(%d)\n    .everyCount(%d)\n  |changeDetect('v')", true, 2},
 	"wineval":       {"|window()\n    .periodCount(%d)\n    .everyCount(%d)\n  |eval(lambda: count() + \"v\")\n    .as('o')", true, 2},
 	"winalert":      {"|window()\n    .periodCount(%d)\n    .everyCount(%d)\n  |alert()\n    .crit(lambda: \"v\" > 5)\n    .levelField('o')", true, 2},
@@ -471,10 +474,36 @@ func renderRun(script string, pts []pt) string {
 		return status
 	}
 	var o []string
+	// a batch node forwards BeginBatch / BatchPoint / EndBatch one by one: reassemble them (they are contiguous on an edge)
+	var begin edge.BeginBatchMessage
+	var bps []edge.BatchPointMessage
 	for _, m := range msgs {
-		if s, ok := renderMsg(m); ok {
-			o = append(o, s)
+		switch x := m.(type) {
+		case edge.BeginBatchMessage:
+			begin, bps = x, nil
+		case edge.BatchPointMessage:
+			if begin == nil {
+				o = append(o, "X|stray-batch-point|0|-")
+				continue
+			}
+			bps = append(bps, x)
+		case edge.EndBatchMessage:
+			if begin == nil {
+				o = append(o, "X|stray-end-batch|0|-")
+				continue
+			}
+			if s, ok := renderMsg(edge.NewBufferedBatchMessage(begin, bps, x)); ok {
+				o = append(o, s)
+			}
+			begin, bps = nil, nil
+		default:
+			if s, ok := renderMsg(m); ok {
+				o = append(o, s)
+			}
 		}
+	}
+	if begin != nil {
+		o = append(o, "X|unterminated-batch|0|-")
 	}
 	if len(o) == 0 {
 		return "-"
